@@ -217,8 +217,11 @@ def variant_compare(exe, script_text, workdir, idx, pid):
     if not vs:
         return out, 0
     def norm(txt):
+        # node-level observations (handles, number of active nodes, cache status) legitimately
+        # depend on the deletion policy and the storage: they are not compared across
+        # configurations but with the model run under the same configuration (below)
         d = parse_obs(txt)
-        return {k: v for k, v in d.items() if not v.startswith("audit")}
+        return {k: v for k, v in d.items() if not v.startswith("audit") and not v.startswith("nobs")}
     p0 = os.path.join(workdir, "s%d.script.impl" % idx)
     base = norm(open(p0).read()) if os.path.exists(p0) else {}
     n = 0
@@ -244,9 +247,14 @@ def variant_compare(exe, script_text, workdir, idx, pid):
             f.write(rv.stdout)
         mm = subprocess.run(["timeout", "120", os.path.join(VERIF, "ocaml", "mmodel"), pv, pvo],
                             capture_output=True, text=True, errors="replace")
+        vobs = parse_obs(rv.stdout)
         for ln, tx in parse_obs(mm.stdout).items():
             if tx.startswith("audit FAILED") or tx.startswith("audit UNPARSABLE"):
                 out.append(dict(kind="variant-audit", variant=label, line=ln, model=tx, script_variant=vtxt))
+                break
+            if tx.startswith("nobs") and vobs.get(ln) != tx:
+                out.append(dict(kind="variant-diff", variant=label, line=ln, model=tx, other=vobs.get(ln),
+                                script_variant=vtxt))
                 break
     return out, n
 
